@@ -1,6 +1,7 @@
 package main
 
 import (
+	"go/ast"
 	"fmt"
 	"go/constant"
 	"go/token"
@@ -38,70 +39,98 @@ func propC09(w *World, r *Report) {
 	root := "cptvframe.Frame.Status@param:cptvframe.Frame"
 	want := "lt((-1*cptvframe.Telemetry.LastFFCTime@" + root + " + cptvframe.Telemetry.TimeOn@" + root + "), 10000000000)"
 	r.Check(got == want, "F2", "FFC predicate is TimeOn - LastFFCTime < 10 s (strict)", w.Pos(k.ffcPred.Pos()), got)
-	// F1b: Detect hands the previous value and stores the current one
-	var pcCall *ssa.Call
-	for _, b := range d.Detect.Blocks {
-		for _, in := range b.Instrs {
-			if c, ok := in.(*ssa.Call); ok && c.Call.StaticCallee() == k.pixelsChanged {
-				pcCall = c
+	// F1b (path form; loop-free stage methods split off Detect are unfolded): on every path Detect calls the selection
+	// logic once, with the current frame and the FFC state of the PREVIOUS frame (every load of the state field comes
+	// before the one store of isAffectedByFFC(current frame), which comes before the call), and returns its verdict
+	de := newTermEnv(w)
+	stage := sameReceiverHelperOf(d.Detect)
+	paths, complete := enumPathsInl(de, d.Detect, 512, func(c *ssa.Function) bool {
+		// only stage methods split off Detect: the detector's kernels stay calls
+		for _, kf := range []*ssa.Function{k.pixelsChanged, k.updateBg, k.calcThresh, k.hasMotion, k.diffAbs, k.diffWarm, k.countOne, k.countTwo, k.reset} {
+			if c == kf {
+				return false
 			}
 		}
-	}
-	if pcCall == nil {
-		r.Fail("F1", "Detect calls the selection logic", w.Pos(d.Detect.Pos()), "call not found", "")
+		return stage(c) && isPtrTo(c.Signature.Recv().Type(), d.T)
+	})
+	prevField := -1
+	if !complete || len(paths) == 0 {
+		r.Unknown("F1", "Detect paths", w.Pos(d.Detect.Pos()), "Detect (with its loop-free stage methods unfolded) is not loop-free")
 		return
 	}
-	prevArg := pcCall.Call.Args[2]
-	ld, isLoad := prevArg.(*ssa.UnOp)
-	okPrev := false
-	prevField := -1
-	detail := e.termOf(prevArg).String()
-	if isLoad {
-		if fa, ok := ld.X.(*ssa.FieldAddr); ok && isPtrTo(fa.X.Type(), d.T) {
-			prevField = fa.Field
-			// a store of ffc(cur) to the same field after the load, before the call, in every path: same block check
-			loadIdx, storeIdx, callIdx := -1, -1, -1
-			var stVal ssa.Value
-			for _, b := range d.Detect.Blocks {
-				for i, in := range b.Instrs {
-					if in == ssa.Instruction(ld) && b == ld.Block() {
-						loadIdx = i
-					}
-					if st, ok := in.(*ssa.Store); ok && b == ld.Block() {
-						if fa2, ok := st.Addr.(*ssa.FieldAddr); ok && isPtrTo(fa2.X.Type(), d.T) && fa2.Field == fa.Field {
-							storeIdx = i
-							stVal = st.Val
-						}
-					}
-					if in == ssa.Instruction(pcCall) && b == ld.Block() {
-						callIdx = i
-					}
-				}
-			}
-			okPrev = loadIdx >= 0 && storeIdx > loadIdx && (callIdx < 0 || true) && ld.Block() == d.Detect.Blocks[0]
-			if stVal != nil {
-				if c, ok := stVal.(*ssa.Call); ok {
-					okPrev = okPrev && c.Call.StaticCallee() == k.ffcPred && c.Call.Args[0] == ssa.Value(d.Detect.Params[1])
-					detail += " ; stored: " + k.ffcPred.Name() + "(frame)"
-				} else {
-					okPrev = false
-				}
+	okCall, okPrev, okCur, okRet := true, true, true, true
+	var firstCall *ssa.Call
+	detail := ""
+	frameT := de.termOf(d.Detect.Params[1]).String()
+	for _, p := range paths {
+		var pc *ssa.Call
+		pcIdx, npc := -1, 0
+		for i, in := range p.Seq {
+			if c, ok := in.(*ssa.Call); ok && c.Call.StaticCallee() == k.pixelsChanged {
+				pc, pcIdx = c, i
+				npc++
 			}
 		}
-	}
-	r.Check(okPrev, "F1", "Detect passes the FFC state of the previous frame (loaded before storing the current frame's)", w.InstrPos(pcCall), detail)
-	r.Check(pcCall.Call.Args[1] == ssa.Value(d.Detect.Params[1]), "F1", "Detect evaluates the current frame", w.InstrPos(pcCall), "")
-	// Detect's result is the verdict
-	de := newTermEnv(w)
-	paths, complete := enumPaths(de, d.Detect, 256)
-	okRet := complete
-	for _, p := range paths {
-		ex, ok := p.Ret.Results[0].(*ssa.Extract)
-		if !ok || ex.Tuple != ssa.Value(pcCall) || ex.Index != 0 {
+		if pc == nil || npc != 1 {
+			okCall = false
+			continue
+		}
+		if firstCall == nil {
+			firstCall = pc
+		}
+		if p.Term(de, pc.Call.Args[1]).String() != frameT {
+			okCur = false
+		}
+		if ex := p.Term(de, p.Ret.Results[0]).String(); ex != "#0("+p.Term(de, pc).String()+")" {
 			okRet = false
 		}
+		// which field is the previous-FFC state: the bool field whose value is handed over
+		at := p.Term(de, pc.Call.Args[2]).String()
+		detail = at
+		fi := -1
+		for i := 0; i < d.St.NumFields(); i++ {
+			if at == "motion.motionDetector."+d.St.Field(i).Name()+"@recv:motion.motionDetector" {
+				fi = i
+			}
+		}
+		if fi < 0 {
+			okPrev = false
+			continue
+		}
+		prevField = fi
+		// the value handed over is a load of the field that executes before the store
+		passed := p.Origin(pc.Call.Args[2])
+		lastLoad, storeIdx, nStores := -1, -1, 0
+		for i, in := range p.Seq[:pcIdx] {
+			switch x := in.(type) {
+			case *ssa.UnOp:
+				if ssa.Value(x) == passed {
+					if fa, ok := x.X.(*ssa.FieldAddr); ok && x.Op == token.MUL && fa.Field == fi && isPtrTo(fa.X.Type(), d.T) {
+						lastLoad = i
+					}
+				}
+			case *ssa.Store:
+				if fa, ok := x.Addr.(*ssa.FieldAddr); ok && fa.Field == fi && isPtrTo(fa.X.Type(), d.T) {
+					storeIdx = i
+					nStores++
+					c, isCall := x.Val.(*ssa.Call)
+					if !isCall || c.Call.StaticCallee() != k.ffcPred || p.Term(de, c.Call.Args[0]).String() != frameT {
+						okPrev = false
+					}
+				}
+			}
+		}
+		if !(nStores == 1 && lastLoad >= 0 && lastLoad < storeIdx) {
+			okPrev = false
+		}
 	}
-	r.Check(okRet && len(paths) > 0, "F1", "every return of Detect is the selection logic's verdict", w.Pos(d.Detect.Pos()), fmt.Sprintf("%d paths", len(paths)))
+	if !okCall || firstCall == nil {
+		r.Fail("F1", "Detect calls the selection logic", w.Pos(d.Detect.Pos()), "not exactly one call on every path", "")
+		return
+	}
+	r.Check(okPrev, "F1", "Detect passes the FFC state of the previous frame (loaded before storing the current frame's)", w.InstrPos(firstCall), detail+" ; stored: "+k.ffcPred.Name()+"(frame)")
+	r.Check(okCur, "F1", "Detect evaluates the current frame", w.InstrPos(firstCall), "")
+	r.Check(okRet, "F1", "every return of Detect is the selection logic's verdict", w.Pos(d.Detect.Pos()), fmt.Sprintf("%d paths", len(paths)))
 	// F4
 	checkReseed(w, r, d, k, prevField, "F4")
 	// F5
@@ -148,7 +177,7 @@ func checkReseed(w *World, r *Report, d *detInfo, k *kernels, curFFCField int, r
 	}
 	r.Check(n == 1, rule, "exactly one per-pixel background update store", "-", fmt.Sprint(n))
 	// Detect: updateBackground only when the current frame is not FFC-affected, with the previous state passed
-	for _, b := range d.Detect.Blocks {
+	for _, b := range detectBlocks(w, d, k) {
 		for _, in := range b.Instrs {
 			call, ok := in.(*ssa.Call)
 			if !ok || call.Call.StaticCallee() != k.updateBg {
@@ -167,7 +196,7 @@ func checkReseed(w *World, r *Report, d *detInfo, k *kernels, curFFCField int, r
 			if u, ok := pa.(*ssa.UnOp); ok {
 				if fa, ok := u.X.(*ssa.FieldAddr); ok && fa.Field == curFFCField {
 					// loaded before the store in block 0
-					okP = u.Block() == d.Detect.Blocks[0]
+					okP = u.Block() == u.Parent().Blocks[0]
 					for i, x := range u.Block().Instrs {
 						if st, ok := x.(*ssa.Store); ok {
 							if fa2, ok := st.Addr.(*ssa.FieldAddr); ok && fa2.Field == curFFCField && isPtrTo(fa2.X.Type(), d.T) {
@@ -365,7 +394,7 @@ func propC15(w *World, r *Report) {
 	r.Check(len(classes) == 4, "A1", "all four bound combinations are distinguished", w.Pos(k.calcThresh.Pos()), fmt.Sprint(len(classes)))
 	// A2: mean provenance
 	var ubCall *ssa.Call
-	for _, b := range d.Detect.Blocks {
+	for _, b := range detectBlocks(w, d, k) {
 		for _, in := range b.Instrs {
 			if c, ok := in.(*ssa.Call); ok {
 				switch c.Call.StaticCallee() {
@@ -480,7 +509,22 @@ func propC15(w *World, r *Report) {
 			switch {
 			case dst.lo != nil:
 				kinds["seed"] = true
-				r.Check(src.frame == ssa.Value(k.updateBg.Params[1]) && dst.row == src.row, "A3", name+": seed copies the interior columns of the same input row", w.InstrPos(call), "")
+				inputFrame := src.frame == ssa.Value(k.updateBg.Params[1])
+				if p, isP := src.frame.(*ssa.Parameter); isP && p.Parent() != k.updateBg && len(p.Parent().Params) > 1 && p != p.Parent().Params[0] {
+					// in a method split off the update: its frame parameter must be handed the update's input frame
+					for _, ub := range k.updateBg.Blocks {
+						for _, ui := range ub.Instrs {
+							if uc, ok := ui.(*ssa.Call); ok && uc.Call.StaticCallee() == p.Parent() {
+								for ai, a := range uc.Call.Args {
+									if ai < len(p.Parent().Params) && p.Parent().Params[ai] == p && a == ssa.Value(k.updateBg.Params[1]) {
+										inputFrame = true
+									}
+								}
+							}
+						}
+					}
+				}
+				r.Check(inputFrame && dst.row == src.row, "A3", name+": seed copies the interior columns of the same input row", w.InstrPos(call), "")
 			case drow.ok && drow.lo == (lin{}) && drow.hi == (lin{s: 1, k: -1}):
 				kinds["top"] = true
 				r.Check(srow.ok && srow.lo == linS && srow.hi == linS, "A3", name+": top border rows <- first interior row", w.InstrPos(call), fmt.Sprintf("src row [%s,%s]", srow.lo, srow.hi))
@@ -495,7 +539,7 @@ func propC15(w *World, r *Report) {
 	r.Check(kinds["seed"] && kinds["top"] && kinds["bottom"], "G4", "border replication copies found (seed, top rows, bottom rows)", "-", fmt.Sprintf("%d copies, kinds %v", nc, kinds))
 	// A4
 	curField := -1
-	for _, b := range d.Detect.Blocks {
+	for _, b := range detectBlocks(w, d, k) {
 		for _, in := range b.Instrs {
 			if st, ok := in.(*ssa.Store); ok {
 				if c, ok := st.Val.(*ssa.Call); ok && c.Call.StaticCallee() == k.ffcPred {
@@ -522,15 +566,28 @@ func propC15(w *World, r *Report) {
 		leaf := "motion.motionDetector." + d.St.Field(bgCount).Name() + "@recv:motion.motionDetector"
 		seedGuard := "eq(1, " + leaf + ")"
 		okSeed := false
-		for _, b := range k.updateBg.Blocks {
-			for _, in := range b.Instrs {
-				call, ok := in.(*ssa.Call)
-				if !ok {
-					continue
-				}
-				if bi, isB := call.Call.Value.(*ssa.Builtin); isB && bi.Name() == "copy" {
-					if dst, ok := rowSlice(call.Call.Args[0]); ok && dst.lo != nil {
-						okSeed = hasGuard(e.guardsOf(b), seedGuard)
+		for _, f := range bgFuncs {
+			for _, b := range f.Blocks {
+				for _, in := range b.Instrs {
+					call, ok := in.(*ssa.Call)
+					if !ok {
+						continue
+					}
+					if bi, isB := call.Call.Value.(*ssa.Builtin); isB && bi.Name() == "copy" {
+						if dst, ok := rowSlice(call.Call.Args[0]); ok && dst.lo != nil {
+							if f == k.updateBg {
+								okSeed = hasGuard(e.guardsOf(b), seedGuard)
+							} else {
+								// seeding moved into a method: it is called from the background update under the guard
+								for _, ub := range k.updateBg.Blocks {
+									for _, ui := range ub.Instrs {
+										if uc, ok := ui.(*ssa.Call); ok && uc.Call.StaticCallee() == f {
+											okSeed = hasGuard(e.guardsOf(ub), seedGuard)
+										}
+									}
+								}
+							}
+						}
 					}
 				}
 			}
@@ -692,6 +749,24 @@ func (d *detInfo) isInteriorMeanAccumulator(e *termEnv, v ssa.Value) (bool, stri
 			}
 			return walk(accSide)
 		}
+		if c, isCall := x.(*ssa.Call); isCall {
+			// the mean computed in a method of the detector split off the background update: every return of it
+			callee := c.Call.StaticCallee()
+			if callee != nil && callee.Signature.Recv() != nil && isPtrTo(callee.Signature.Recv().Type(), d.T) && len(callee.Blocks) > 0 && callee.Signature.Results().Len() == 1 {
+				n := 0
+				before := adds
+				for _, b := range callee.Blocks {
+					if ret, ok := b.Instrs[len(b.Instrs)-1].(*ssa.Return); ok {
+						n++
+						adds = before
+						if !walk(ret.Results[0]) {
+							return false
+						}
+					}
+				}
+				return n > 0
+			}
+		}
 		why = fmt.Sprintf("unexpected %T in the accumulator", x)
 		return false
 	}
@@ -768,5 +843,38 @@ func zeroStoresOf(fn *ssa.Function, T *types.Named, depth int) map[int]bool {
 			}
 		}
 	}
+	return out
+}
+
+// detectBlocks: the blocks of Detect and of the stage methods split off it (unexported methods of the detector that
+// Detect reaches and that are none of the identified kernels).
+func detectBlocks(w *World, d *detInfo, k *kernels) []*ssa.BasicBlock {
+	kernel := map[*ssa.Function]bool{}
+	for _, kf := range []*ssa.Function{k.pixelsChanged, k.updateBg, k.calcThresh, k.hasMotion, k.diffAbs, k.diffWarm, k.countOne, k.countTwo, k.reset, k.ffcPred} {
+		if kf != nil {
+			kernel[kf] = true
+		}
+	}
+	var out []*ssa.BasicBlock
+	seen := map[*ssa.Function]bool{}
+	var walk func(fn *ssa.Function, depth int)
+	walk = func(fn *ssa.Function, depth int) {
+		if seen[fn] || depth > 2 {
+			return
+		}
+		seen[fn] = true
+		out = append(out, fn.Blocks...)
+		for _, b := range fn.Blocks {
+			for _, in := range b.Instrs {
+				if c, ok := in.(*ssa.Call); ok {
+					callee := c.Call.StaticCallee()
+					if callee != nil && !kernel[callee] && callee.Signature.Recv() != nil && isPtrTo(callee.Signature.Recv().Type(), d.T) && len(callee.Blocks) > 0 && !ast.IsExported(callee.Name()) {
+						walk(callee, depth+1)
+					}
+				}
+			}
+		}
+	}
+	walk(d.Detect, 0)
 	return out
 }
